@@ -141,7 +141,7 @@ PROBES = {
     "C09": [("ark", "curve.sqrt"), ("min", "min.all")],
     "C10": _F, "C11": _F,
     "C12": _F + [("ark", "curve.encode"), ("ark", "curve.decode"), ("ark", "curve.ops"), ("ark", "curve.mul"), ("ark", "curve.elligator"), ("min", "min.all")],
-    "C13": [("r1cs", "r1cs.d6"), ("r1cs", "r1cs.lazy")], "C14": [("r1cs", "r1cs.hints"), ("r1cs", "r1cs.alloc")], "C16": [("ark", "bls")],
+    "C13": [("r1cs", "r1cs.d6"), ("r1cs", "r1cs.lazy"), ("r1cs", "r1cs.unforced")], "C14": [("r1cs", "r1cs.hints"), ("r1cs", "r1cs.alloc"), ("r1cs", "r1cs.unforced")], "C16": [("ark", "bls")],
 }
 for _p, _l in PROBES.items():
     if _p in PROPS:
@@ -151,7 +151,8 @@ WATCH = {
     "C02": {"src/ark_curve/serialize.rs": [("ark", "curve.decode")], "src/fields/fq/arkworks.rs": [("ark", "field.fq"), ("ark", "curve.decode")]},
     "C03": {"src/ark_curve/serialize.rs": [("ark", "curve.encode")]},
     "C05": {"src/ark_curve/element/projective.rs": [("ark", "curve.mul")], "src/ark_curve/element.rs": [("ark", "curve.mul")]},
-    "C06": {"src/ark_curve/element.rs": [("ark", "curve.ctor")], "src/ark_curve/rand.rs": [("ark", "curve.ctor")], "src/ark_curve/edwards.rs": [("ark", "curve.ctor")]},
+    "C06": {"src/ark_curve/element.rs": [("ark", "curve.ctor")], "src/ark_curve/rand.rs": [("ark", "curve.ctor")], "src/ark_curve/edwards.rs": [("ark", "curve.ctor")],
+            "src/ark_curve/serialize.rs": [("ark", "curve.ctor"), ("ark", "curve.decode")]},
     "C09": {"src/ark_curve/invsqrt.rs": [("ark", "curve.sqrt")], "src/min_curve/invsqrt.rs": [("min", "min.all")], "src/fields/fq/arkworks.rs": [("ark", "curve.sqrt")]},
     "C10": {f"src/fields/{f}/u32/wrapper.rs": [("min", f"field.{f}")] for f in ("fq", "fr", "fp")},
     "C11": dict([(f"src/fields/{f}.rs", [("ark", f"field.{f}"), ("min", f"field.{f}")]) for f in ("fq", "fr", "fp")] +
@@ -159,13 +160,48 @@ WATCH = {
                 [(f"src/fields/{f}/u32/wrapper.rs", [("min", f"field.{f}")]) for f in ("fq", "fr", "fp")]),
     "C12": dict([(f"src/fields/{f}/u32/wrapper.rs", [("min", f"field.{f}")]) for f in ("fq", "fr", "fp")] +
                 [(f"src/fields/{f}/u32/fiat.rs", [("min", f"field.{f}")]) for f in ("fq", "fr", "fp")]),
-    "C13": {"src/ark_curve/r1cs/inner.rs": [("r1cs", "r1cs.d6"), ("r1cs", "r1cs.lazy")], "src/ark_curve/r1cs/element.rs": [("r1cs", "r1cs.lazy")],
-            "src/ark_curve/r1cs/lazy.rs": [("r1cs", "r1cs.lazy")], "src/ark_curve/r1cs/ops.rs": [("r1cs", "r1cs.lazy")]},
-    "C14": {"src/ark_curve/r1cs/inner.rs": [("r1cs", "r1cs.hints"), ("r1cs", "r1cs.alloc")], "src/ark_curve/r1cs/element.rs": [("r1cs", "r1cs.alloc")]},
+    "C13": {"src/ark_curve/r1cs/inner.rs": [("r1cs", "r1cs.d6"), ("r1cs", "r1cs.lazy")], "src/ark_curve/r1cs/element.rs": [("r1cs", "r1cs.lazy"), ("r1cs", "r1cs.unforced")],
+            "src/ark_curve/r1cs/lazy.rs": [("r1cs", "r1cs.lazy"), ("r1cs", "r1cs.unforced")], "src/ark_curve/r1cs/ops.rs": [("r1cs", "r1cs.lazy")],
+            "src/ark_curve/r1cs/fqvar_ext.rs": [("r1cs", "r1cs.unforced")]},
+    "C14": {"src/ark_curve/r1cs/inner.rs": [("r1cs", "r1cs.hints"), ("r1cs", "r1cs.alloc")], "src/ark_curve/r1cs/element.rs": [("r1cs", "r1cs.alloc"), ("r1cs", "r1cs.unforced")],
+            "src/ark_curve/r1cs/lazy.rs": [("r1cs", "r1cs.unforced")], "src/ark_curve/r1cs/fqvar_ext.rs": [("r1cs", "r1cs.unforced")]},
 }
 for _p, _w in WATCH.items():
     if _p in PROPS:
         PROPS[_p]["watch"] = _w
+
+
+def _auto_watch():
+    """every source file the units of a property extract functions from is watched as well: contracts cover functions, not
+    files, and a change to an uncontracted neighbour (seeded C02_c: `read` for `read_exact` in a deserialiser next to the
+    decoder) must still run the bounded probes of that file.  Resolved lazily because it loads the unit descriptions."""
+    from vx import replay as _r
+    import units as _u
+    for pid, spec in PROPS.items():
+        files = set()
+        for un in spec["units"]:
+            try:
+                unit = _u.load(un)
+            except Exception:
+                continue
+            for it in unit.items:
+                if it.file and it.file.startswith("src/") and it.mode == "verify":
+                    files.add(it.file)
+        w = dict(spec.get("watch", {}))
+        for f in sorted(files):
+            pr = _r.probes_for(f, None, "", pid)
+            if pr:
+                w.setdefault(f, pr)
+        spec["watch"] = w
+
+
+_AUTO_DONE = []
+
+
+def ensure_auto_watch():
+    if not _AUTO_DONE:
+        _AUTO_DONE.append(1)
+        _auto_watch()
 
 NOT_APPLICABLE = {
     "C15": "circuit shape / pinned Groth16 keys: the subject is the hidden ark_relations constraint store and binary key files; no pre/postcondition on a /repo function can state matrix equality across runs or SNARK verification (DESIGN.md C15)",
